@@ -1,6 +1,6 @@
 (** C10 — passphrase files stand alone and bound the work they demand.
     Property theorems only; proofs are in AgeLogic.v. *)
-From Age Require Import Base Format IO Prims Recipients Age AgeLogic.
+From Age Require Import Base Format IO Prims Recipients Age AgeLogic Cli CliFacts.
 Local Open Scope N_scope.
 
 Section C10.
@@ -78,6 +78,29 @@ Section C10.
     forall (w : bytes) (n : N),
       (digits_re w = true /\ atoi w = n) <-> (1 <= n /\ w = dec_of_N n).
   Proof. exact canonical_decimal. Qed.
+
+  (** The CLI's lazy passphrase identity (age -d without -i) asks for the
+      passphrase exactly when the header is a single scrypt stanza ... *)
+  Theorem C10_cli_prompts_iff_lone_scrypt :
+    forall (ss : list stanza) (typed : option bytes) r prompted w,
+      lazy_scrypt_unwrap P ss typed = (r, prompted, w) ->
+      (prompted = true <-> exists s, ss = [s] /\ st_type s = ty_scrypt).
+  Proof. exact (lazy_prompt_iff P). Qed.
+
+  (** ... a scrypt stanza among others is fatal before any prompt ... *)
+  Theorem C10_cli_not_alone_fatal :
+    forall (ss : list stanza) (typed : option bytes),
+      (exists s, In s ss /\ st_type s = ty_scrypt) -> length ss <> 1%nat ->
+      lazy_scrypt_unwrap P ss typed = (Err EFatal, false, []).
+  Proof. exact (lazy_not_alone_fatal P). Qed.
+
+  (** ... and whatever is typed it derives at most one key, with a work factor
+      between 1 and the default maximum 22. *)
+  Theorem C10_cli_work_bound :
+    forall (ss : list stanza) (typed : option bytes) r prompted w,
+      lazy_scrypt_unwrap P ss typed = (r, prompted, w) ->
+      (length w <= 1)%nat /\ forall n, In n w -> 1 <= n <= cli_max_work_factor.
+  Proof. exact (lazy_work_bound P). Qed.
 End C10.
 
 Print Assumptions C10_scrypt_label_is_fresh.
@@ -87,3 +110,6 @@ Print Assumptions C10_identity_scan.
 Print Assumptions C10_work_bound.
 Print Assumptions C10_bad_work_factor_fatal.
 Print Assumptions C10_canonical_decimal.
+Print Assumptions C10_cli_prompts_iff_lone_scrypt.
+Print Assumptions C10_cli_not_alone_fatal.
+Print Assumptions C10_cli_work_bound.
